@@ -5,7 +5,7 @@ import gen, cases
 def run(R):
     if not R.build():
         return
-    R.lean(["C02", "C02Apply"])
+    R.lean(["C02", "C02Apply", "C03Run"])
     quick = R.tier == "quick"
     rng = R.rng
     # T1: whitespace matcher, exhaustive small scope + random pairs; oracle = independent Python normal form
